@@ -60,6 +60,10 @@ class RoundTrip:
             if p[0] == q + "#" and len(p) == 3 and isinstance(p[1], Atom) and p[1].name == "hex":
                 kind = "DOUBLE_QUOTED_HEXCOLOR" if q == '"' else "SINGLE_QUOTED_HEXCOLOR"
             return [(kind, tmpl)]
+        # wrapped in the other quote character: the lexer reads that as a quoted string too
+        oq = "'" if q == '"' else '"'
+        if len(p) >= 2 and isinstance(p[0], str) and p[0].startswith(oq) and isinstance(p[-1], str) and p[-1].endswith(oq) and oq not in "".join(x if isinstance(x, str) else "x" for x in p)[1:-1].replace("\\" + oq, ""):
+            return [("DOUBLE_QUOTED_STRING" if oq == '"' else "SINGLE_QUOTED_STRING", tmpl)]
         if len(p) == 1 and isinstance(p[0], str):
             words = p[0].split(" ")
             return [("WORD", w) for w in words]
@@ -68,7 +72,8 @@ class RoundTrip:
         if len(p) == 1 and isinstance(p[0], Atom) and p[0].name == "enumword":
             return [("UNQUOTED_STRING", tmpl)]  # an enumerated word written bare in some letter case
         if isinstance(p[0], str) and p[0] == "[" and len(p) == 3 and p[2] == "]":
-            return [("LSQB", "["), ("UNQUOTED_STRING", SStr([p[1]])), ("RSQB", "]")]
+            # the name inside the brackets is a plain word: which terminal it is, is the lexer's business
+            return [("LSQB", "["), ("NAMEWORD", SStr([p[1]])), ("RSQB", "]")]
         if isinstance(p[0], str) and p[0].startswith("/") and isinstance(p[-1], str) and p[-1].endswith("/"):
             return [("REGEXP1", tmpl)]
         if isinstance(p[0], str) and (p[0].startswith("(") or p[0].startswith("NOT (") or p[0].startswith("{")):
@@ -114,6 +119,8 @@ class RoundTrip:
                 return False, f"the bare text {t} is not a token of any value kind" + (" (it starts a comment)" if t.startswith("#") else ""), []
             if kind == "WORD":
                 items.append(("W", text))
+            elif kind == "NAMEWORD":
+                items.append(("W", "attrname"))  # a representative identifier, lexed in context
             else:
                 items.append(("K", kind))
         items.append(("W", "END"))
@@ -137,7 +144,7 @@ class RoundTrip:
         val_kinds = kinds[2 : 2 + len(toks)]
         raw = []
         for (kind, text), k2 in zip(toks, val_kinds):
-            if kind == "WORD":
+            if kind in ("WORD", "NAMEWORD"):
                 raw.append((k2, text))
             else:
                 raw.append((k2 if k2 else kind, text))
@@ -146,7 +153,7 @@ class RoundTrip:
         while j < len(raw):
             kind, text = raw[j]
             if kind == "LSQB":
-                w = models.token("UNQUOTED_STRING", raw[j + 1][1])
+                w = models.token(raw[j + 1][0] or "UNQUOTED_STRING", raw[j + 1][1])
                 children.append(("attr_bind", X.eval_callback("attr_bind", lambda w=w: [w])))
                 j += 3
                 continue
